@@ -92,12 +92,30 @@ def read_chart(ch, fmt):
         _r("Plot.categories.flattened_labels", lambda: pl.categories.flattened_labels)
         _r("Plot.categories.levels", lambda: [list(lv) for lv in pl.categories.levels])
         _r("Plot.categories.depth", lambda: pl.categories.depth)
-        _r("Plot.has_data_labels", lambda: pl.has_data_labels)
+        if _r("Plot.has_data_labels", lambda: pl.has_data_labels):
+            dls = pl.data_labels
+            _r("DataLabels.number_format", lambda: dls.number_format)
+            _r("DataLabels.number_format_is_linked", lambda: dls.number_format_is_linked)
+            _r("DataLabels.position", lambda: dls.position)
+            _r("DataLabels.show_value", lambda: dls.show_value)
+            _r("DataLabels.show_category_name", lambda: dls.show_category_name)
+            _r("DataLabels.show_series_name", lambda: dls.show_series_name)
+            _r("DataLabels.show_percentage", lambda: dls.show_percentage)
+            _r("DataLabels.show_legend_key", lambda: dls.show_legend_key)
         _r("Plot.vary_by_categories", lambda: pl.vary_by_categories)
         for se in _r("Plot.series", lambda: list(pl.series)) or []:
             _r("Series.name", lambda: se.name)
             _r("Series.values", lambda: tuple(se.values))
             _r("Series.index", lambda: se.index)
+            pts = _r("Series.points", lambda: se.points)
+            npts = _r("Series.points.__len__", lambda: len(pts)) if pts is not None else 0
+            for i in range(min(npts or 0, 3)):
+                pt = _r("Series.points[i]", lambda: pts[i])
+                if pt is not None:
+                    dl = _r("Point.data_label", lambda: pt.data_label)
+                    if dl is not None:
+                        _r("DataLabel.has_text_frame", lambda: dl.has_text_frame)
+                        _r("DataLabel.position", lambda: dl.position)
             if fmt:
                 _r("Series.format.fill.type", lambda: se.format.fill.type)
                 _r("Series.format.line.width", lambda: se.format.line.width)
